@@ -107,6 +107,20 @@ func consumerCommitRollback(c *Ctx) {
 						clean = false
 					}
 				}
+				// one return for both outcomes (`if err == nil { reset }; return err`): judged along the edges of the nil test
+				// of the returned value
+				if vs := c.retVals(r, 0); !clean && len(vs) == 1 {
+					if ifn, ns, found := q.nilTestOf(func(v ssa.Value) bool { return v == vs[0] }); found {
+						clean = true
+						for _, s := range stores {
+							if !q.onlyViaEdge(s, ifn, ns) {
+								clean = false
+							}
+						}
+						okp := !P.PathExists(q.fn, ifn, an.Is(r), an.In(stores), cutEdge(ifn, 1-ns))
+						q.add("PATH", "a successful Commit has zeroed the delta", okp, pickS(okp, "from err == nil every path to the return passes the reset", "Commit can return nil without zeroing the delta: the committed reads would be committed again"), r)
+					}
+				}
 				q.add("PATH", "a failing Commit changes nothing", clean, pickS(clean, "no store to consumer.offset precedes this error return", "an error return of Commit is reachable after consumer.offset was modified"), r)
 			}
 		}
@@ -149,6 +163,9 @@ func consumerCommitRollback(c *Ctx) {
 func closuresOf(fn *ssa.Function, pred func(f *ssa.Function) bool) []*ssa.Function {
 	var out []*ssa.Function
 	for _, a := range fn.AnonFuncs {
+		if an.IsTransparent(a) {
+			continue // part of fn itself
+		}
 		if pred(a) {
 			out = append(out, a)
 		}
